@@ -35,6 +35,15 @@ STRUCT_ELEMS = ["ƛ›;", "ƛd;", "'₂;", "'1;", "µN;", "v›", "vd", "ƒ+", "
                 "ƛ:Ṙ;", "ƛ0 9 Ȧ;", "ƛ1 J;", "λ2|+; Ḟ", "⁽› ẇ", "‡›d M", "ƛn;", "~₂", "₌Lh", "₍ht"]
 
 
+# well-typed applications of list-transforming elements (the top of the stack is the list): used by the "recipes"
+# pool, which alternates them with sharing ops and often applies the same recipe twice (multi-step histories)
+RECIPES = ["0 9 Ȧ", "1 7 Ȧ", "⟨0|1⟩ 5 Ȧ", "0 λ›; ¨M", "⟨0|1⟩ λd; ¨M", "1 8 Ṁ", "0 9 Ṁ", "9 J", "9 p", "⟨8|9⟩ J", "Ṙ", "s", "U", "Ḣ", "Ṫ",
+           "ḣ", "ṫ", "f", "1 Ǔ", "1 ǔ", "2 ẇ", "2 Ẏ", "1 ȯ", "∩", "›", "d", "N", "1 +", "¦", "¯", "K", "ė", "z", ": Z", ": Y",
+           "2 ẋ", "÷", "y", "0 i", "1 ⟇", "9 o", "ÞḊ", "Þf", "Ġ", "⇧", "⇩", "ÞU", "ṗ", "2 l", "Ċ", "∑", "G", "g", "h", "t", "L",
+           "m", "øṁ", "Þ…" if False else "L", "λ›; M", "λ₂; F", "µN;", "ƒ+", "ɖ+", "v›", "Ḃ", "W", "ÞD" if False else "w"]
+SHARE_OPS = [":", "D", "→a ←a", "→b ←b", "£ ¥", "⅛ ¾", ": ⅛", ": £", "→a ←a ←a", "$", "Ḃ"]
+
+
 class WallTimeout(BaseException):
     pass
 
@@ -135,7 +144,7 @@ class C10(core.Check):
         nested_lazy = rw.random() < 0.25
         place = sorted(set(rw.sample(["stack", "stack2", "a", "b", "reg", "ga", "input"], rw.randint(1, 3)) + ["stack"]))
         # swarm: element pool for this run
-        pool_kind = rw.choice(["all", "all", "subset", "struct", "mutators"])
+        pool_kind = rw.choice(["all", "all", "subset", "struct", "mutators", "recipes", "recipes"])
         if pool_kind == "subset":
             pool = rw.sample(self.keys, 12)
         elif pool_kind == "mutators":
@@ -145,7 +154,21 @@ class C10(core.Check):
         else:
             pool = None
         events = []
-        for _ in range(rs.randint(2, 8)):
+        if pool_kind == "recipes":
+            # share, transform one reference, share again, transform again (often with the same recipe), observe
+            fav = rs.choice(RECIPES)
+            for _ in range(rs.randint(2, 6)):
+                x = rs.random()
+                if x < 0.35:
+                    for op in rs.choice(SHARE_OPS).split(" "):  # atomic copy ops keep their known semantics
+                        events.append(["copy", op])
+                elif x < 0.75:
+                    events.append(["apply", [fav if rs.random() < 0.5 else rs.choice(RECIPES)]])
+                elif x < 0.85:
+                    events.append(["force", rs.randint(0, 30), rs.randint(1, 4)])
+                else:
+                    events.append(["observe", rs.randint(0, 30)])
+        for _ in range(rs.randint(2, 8) if pool_kind != "recipes" else 0):
             x = rs.random()
             if x < 0.25:
                 events.append(["copy", rs.choice(COPY_OPS)])
